@@ -35,9 +35,9 @@ RULE = ("Adverse-path fault enumeration: instrument {spot long leveraged w in (1
 ASSUMPTIONS = ["zero interest rate (interest is C06) so that the ledger knows the decision-time NLV without calling a mutating valuation",
                "known finding step-raises-from-reward (K1) is classified by mechanism: EndOfEpisodeError through rewards.*.calculate "
                "ending in Broker.net_liquidation_value while the account is insolvent"]
-REQUIRED = ["C09:nonraising-valuation-is-current", "C09:insolvent-decision-trades-nothing", "C09:valuation-raises-iff-nonpositive", "C09:refused-after-end",
+REQUIRED = ["C09:interest-ruin-reached", "C09:nonraising-valuation-is-current", "C09:insolvent-decision-trades-nothing", "C09:valuation-raises-iff-nonpositive", "C09:refused-after-end",
             "C09:reset-reenables", "C09:control-stays-solvent", "C09:exact-zero-is-insolvent"]
-REQUIRED_CATS = ["broker-level:insolvent", "ruin:latent", "ruin:nonlatent", "severity:exact-zero", "severity:below", "severity:far-below", "severity:control",
+REQUIRED_CATS = ["scenario:interest-ruin", "broker-level:insolvent", "ruin:latent", "ruin:nonlatent", "severity:exact-zero", "severity:below", "severity:far-below", "severity:control",
                  "first-step", "later-step", "spot-long", "spot-short", "margined"]
 REQUIRED_HITS = ["Broker.transact", "Broker.rebalance", "Broker.net_liquidation_value"]
 TECHNIQUE = "runtime monitoring with fault injection: ruining price paths at every position of a step; ledger replay decides decision-time NLV; transact hook proves no trade"
@@ -124,7 +124,92 @@ def valuation_bl(ctx):
     ctx.sample = {"broker_level": True, "contracts": [gen.describe_contract(c) for c in cs], "deposit": dep}
 
 
+def interest_ruin(ctx):
+    """The account is still (barely) solvent when the step ends, but the interest charged on its
+    borrowed cash for the elapsed period - booked when the next decision arrives - takes NLV to <= 0:
+    that decision must execute nothing."""
+    from vf.epl import interest_ref
+    rng = ctx.rng
+    c = ETF("A")
+    markup = rng.choice([0.03, 0.05, 0.1])
+    fees = BrokerFees(markup=markup)
+    N0 = rng.choice([1e3, 1e5])
+    p0 = rng.choice([16.0, 100.0])
+    Q = 2.0 * N0 / p0                      # 2x leveraged: cash = -N0 after the purchase
+    n = 6
+    t0 = datetime(2020, 6, 1, 12)
+    grid = [t0 + timedelta(days=k) for k in range(n)]
+    jr = rng.choice([1, 2, 3])             # the price drops in the non-latent batch of step jr
+    day = (1 + markup) ** (1 / 365) - 1
+    # cash after jr+1 daily charges, then the price at which NLV = frac x (next day's interest)
+    cash = -N0 * (1 + day) ** jr          # decisions 1..jr have each charged one day before the drop
+    frac = rng.choice([0.2, 0.5, 0.9])
+    nlv_target = frac * (-cash) * day
+    p_drop = (nlv_target - cash) / Q
+    evs = [EventNBBO(t, c, (p0 if k <= jr else p_drop), (p0 if k <= jr else p_drop)) for k, t in enumerate(grid)]
+    tr = Transmitter(grid)
+    tr.add_events(evs)
+    sink = ep.Sink()
+    env = TradingEnv(action_space=BoxPortfolio([c], -10 * Q, 10 * Q, as_weights=False), transmitter=tr, state=ep.Rec(sink),
+                     reward=RewardPnL(), broker_fees=fees, initial_cash=N0)
+    sink.env = env
+    led = Ledger(N0, fees)
+    cursor = [0]
+    last_reb_time = [None]
+    refused_seen = False
+    with ep.EpMonitor(sink) as mon:
+        env.reset()
+        for k in range(n - 1):
+            target = Q if k <= jr else Q / 2          # after the drop the policy tries to sell half
+            cash_before = env.broker.holdings_quantity.get(Cash(), 0.0)
+            tx0, n0 = mon.n_transact, len(env.broker.track_record)
+            h0 = {x: y for x, y in env.broker.holdings_quantity.items() if not isinstance(x, Cash)}
+            exc = None
+            try:
+                out = env.step(np.array([target]))
+            except EndOfEpisodeError as e:
+                exc = e
+            dec = None
+            while cursor[0] < len(sink.log):
+                x = sink.log[cursor[0]]
+                cursor[0] += 1
+                if x[0] == "M" and isinstance(x[5], EventNBBO):
+                    led.quote(x[5].contract, x[5].bid_price, x[5].ask_price)
+                elif x[0] == "REB":
+                    secs = (x[2] - last_reb_time[0]).total_seconds() if last_reb_time[0] else 0.0
+                    led.interest += interest_ref(cash_before, 0.0, markup, secs) if secs else 0.0
+                    last_reb_time[0] = x[2]
+                    dec = led.nlv()
+                elif x[0] == "TX":
+                    led.trade(x[5].contract, x[5].quantity, x[5].acq_price, x[5].cost_of_commissions)
+            if dec is not None and dec <= 0:
+                refused_seen = True
+                h1 = {x: y for x, y in env.broker.holdings_quantity.items() if not isinstance(x, Cash)}
+                ctx.check("C09:insolvent-decision-trades-nothing", mon.n_transact == tx0 and h1 == h0 and
+                          len(env.broker.track_record) == n0, step=k, decision_nlv=dec, transacts=mon.n_transact - tx0,
+                          scenario="interest-ruin")
+                if exc is not None:
+                    key = classify_escape(exc)
+                    if key:
+                        ctx.finding(key, step=k, scenario="interest-ruin")
+                    else:
+                        ctx.violation("C09:step-failed", step=k, error=repr(exc)[:200])
+                break
+            if exc is not None:
+                ctx.violation("C09:step-failed", step=k, error=repr(exc)[:200], decision_nlv=dec, scenario="interest-ruin")
+                return
+            v = env.broker.net_liquidation_value(False)
+            ctx.check("C09:ledger-agrees", abs(v - led.nlv()) <= 1e-9 * led.scale(), broker=v, ledger=led.nlv(), at="interest-ruin-%d" % k)
+    ctx.check("C09:interest-ruin-reached", refused_seen, frac=frac, markup=markup)
+    ctx.cat("scenario:interest-ruin")
+    ctx.nontrivial = True
+    ctx.sample = {"scenario": "interest-ruin", "markup": markup, "deposit": N0, "drop_after_step": jr, "price_after_drop": p_drop,
+                  "nlv_after_drop_in_days_of_interest": frac}
+
+
 def case(ctx, i, tier):
+    if i % 12 == 11:
+        return interest_ruin(ctx)
     if i % 6 == 5:
         return valuation_bl(ctx)
     rng = ctx.rng
